@@ -97,6 +97,7 @@ void verif_assume(bool c)
         _Exit(3);
     }
 }
+void verif_axiom(bool) {}
 void verif_assert(bool c, const char *msg)
 {
     if (!c)
